@@ -33,3 +33,28 @@ class PeerInitiatorClf(object):
         req = enc_atr_req(nfcid3, self.did, 0, 0, pp_of(self.lri, len(self.gbi) > 0, False), self.gbi)
         return nfc.clf.LocalTarget('106A', atr_req=bytearray(req), dep_req=nondet_bytearray(3, 64),
                                    sens_res=bytearray(b'\x01\x01'))
+
+
+class AnyTargetClf(object):
+    """frontend seen by an Initiator whose peer answers anything (C07): every exchange() returns arbitrary octets
+    or fails with a documented communication error"""
+    def exchange(self, data, timeout):
+        k = nondet_int(0, 3)
+        if k == 1:
+            raise nfc.clf.TimeoutError("timeout")
+        if k == 2:
+            raise nfc.clf.TransmissionError("transmission")
+        if k == 3:
+            raise nfc.clf.ProtocolError("protocol")
+        return nondet_bytearray(0, 255)
+
+
+class AnyInitiatorClf(object):
+    """frontend seen by a Target whose peer sent anything (C07): listen() returns nothing, or a target with the
+    attribute request as received - the drivers deliver ATR_REQ only with its command code D4h 00h and at least the
+    16 octets of the fixed part - and the first DEP command, arbitrary"""
+    def listen(self, target, timeout):
+        if nondet_bool():
+            return None
+        return nfc.clf.LocalTarget('106A', atr_req=bytearray(b'\xD4\x00') + nondet_bytearray(14, 62),
+                                   dep_req=nondet_bytearray(3, 64), sens_res=bytearray(b'\x01\x01'))
